@@ -62,10 +62,10 @@ STATEMENT_STATUS: Dict[str, str] = {
     "esc_unesc_attr": "proved: attribute position incl. strip_control, TAB/LF/CR as references; no raw \" or <",
     "esc_unesc_text": "proved: character data position incl. strip_control, CR as reference; no raw <",
     "strip_legal": "proved: after CONTROL stripping (regenerated class) XML chars + C0 controls are XML chars",
-    "C11_xml_lex_partial": "partial: token level only - the reader's lexer inverts the rendering of every well-formed "
-                           "token sequence; the assembly of C11_xml_wf over the whole hierarchy (templates = token "
-                           "renderings, tree construction = skeleton) is evaluated per generated tree by the driver "
-                           "(ops xmlcheck, parse) but not yet proved",
+    "C11_xml_lex": "proved: the reader's lexer inverts the rendering of every well-formed token sequence",
+    "C11_xml_wf": "proved (full statement): parseXML (characters XMLConverter writes) = some (docSkeleton tree) for all "
+                  "trees in the domain PageOk (strings XML Char after optional CONTROL stripping, formatted numbers "
+                  "Plain, anno TextPlain), both strip_control values, any declared codec name without '?'",
 }
 
 CLASSIFIERS: Dict[str, Any] = {}
@@ -485,6 +485,32 @@ def tree_strings(tree) -> List[str]:
     return out
 
 
+def opaque_ok(tree) -> bool:
+    """Hypotheses `Plain` / `TextPlain` of theorem C11_xml_wf on the opaque (formatted) fields of a dumped tree."""
+    def plain(s):
+        return all(is_xml_char(ch) and ch not in '&<"\t\n\r' for ch in s)
+
+    def walk(n):
+        k = n[0]
+        if k == "page":
+            return all(plain(x) for x in n[1:4]) and all(walk(c) for c in n[4]) and \
+                (n[5] is None or all(walk(g) for g in n[5]))
+        if k == "figure":
+            return plain(n[2]) and all(walk(c) for c in n[3])
+        if k == "textline":
+            return plain(n[1]) and all(walk(c) for c in n[2])
+        if k == "textbox":
+            return plain(n[1]) and plain(n[2]) and all(walk(c) for c in n[4])
+        if k == "char":
+            return all(plain(x) for x in n[2:6])
+        if k == "anno":
+            return all(is_xml_char(ch) and ch not in "&<\r" for ch in n[1])
+        if k == "ggroup":
+            return plain(n[1]) and all(walk(c) for c in n[2])
+        return all(plain(x) for x in n[1:])
+    return all(walk(p) for p in tree)
+
+
 def expected_xml(tree, strip: bool):
     """Skeleton: what a conforming XML reader must see, as (tag, attrs, text, children)."""
     def txt(s):
@@ -759,6 +785,9 @@ def eval_case(spec, la, strip: bool, codecs: List[str], want_model: bool = True)
         scalar = all(not (0xD800 <= ord(ch) <= 0xDFFF) for s in strings for ch in s)
         legal = all(is_xml_char(ch) for s in strings for ch in s)
         in_domain = scalar and (legal or (strip and all(is_xml_char(ch) or ord(ch) < 0x20 for s in strings for ch in s)))
+        if in_domain and not opaque_ok(tree):
+            in_domain = False
+            res.opaque_bad = True
         if codec is None:
             same_hierarchy(tree, ident, "xml output")
             sf = "s" if strip else "k"
@@ -932,6 +961,8 @@ def run_case(ctx: C.Ctx, spec, la, strip, codecs, branch=None, collect=None) -> 
         ctx.branch("codec:" + c)
     if hasattr(r, "tree"):
         count_nodes(ctx, r.tree)
+    if getattr(r, "opaque_bad", False):
+        ctx.branch("xml-domain:formatted-field-not-plain")
     if getattr(r, "unstable", False):
         ctx.branch("hierarchy:id-tie-order-differs-between-runs")
     seen = set()
